@@ -175,6 +175,7 @@ type Shape struct {
 	GopLen      int // video frames per gop (incl. key)
 	AudioPerVid int
 	HdrChangeAt int // gop index at which new sequence headers are published (0 = never)
+	HdrChangeAudioOnly bool // the change republishes the AAC sequence header only (new AudioSpecificConfig, same video)
 	HdrChangeMid bool   // publish the new headers in the middle of that gop (no key frame follows directly)
 	AudioCodec   string // "" = aac, "g711a", "g711u", "opus" (no sequence header for non-AAC)
 	MidMeta     bool // a metadata message in the middle of a gop
@@ -216,6 +217,15 @@ func BuildAt(r *rand.Rand, inc int, sh Shape, base int) []PubMsg {
 	}
 	hdrVer := 0
 	headers := func() {
+		if hdrVer > 0 && sh.HdrChangeAudioOnly {
+			if sh.Audio && sh.AudioCodec == "" {
+				add(Ash, 8, AacSeqHeader(inc, hdrVer), false)
+				ash = base + len(out) - 1
+				out[ash-base].AshIdx = ash
+			}
+			hdrVer++
+			return
+		}
 		if sh.Meta {
 			add(Meta, 18, Metadata(inc, hdrVer, sh.MetaSdf), sh.MetaSdf)
 			meta = base + len(out) - 1
